@@ -353,11 +353,27 @@ def run_semantic(desc, ctx):
             from vmon.props import c03
             ds = c03.make_long(rng)
             ctx.count("long_series_cases")
+        gapcase = ci % 8 == 3
+        if gapcase:
+            # a lead time in the middle of the axis without any valid case (its score is NaN): -acc carries the total on past it
+            cl = refmodel.common_dims(ds)[1]
+            if len(cl) >= 3:
+                lg = cl[len(cl) // 2]
+                for inp in ds["inputs"]:
+                    for k_, c_ in inp["cells"].items():
+                        if k_.split("|")[1] == gen.fnum(lg):
+                            c_["obs"] = None
+                ctx.count("gap_cases")
+            else:
+                gapcase = False
         d = os.path.join(ctx.workdir, "s%d" % ci)
         os.makedirs(d, exist_ok=True)
         paths, cpath = gen.materialize(ds, d, rng if rng.random() < 0.5 else None)
         for _ in range(4):
             spec = gen_spec(rng, ds)
+            if gapcase and rng.random() < 0.7:
+                spec["acc"] = True
+                spec["axis"] = "leadtime"
             groups = refcli.spec_to_argv(spec, paths, cpath)
             flat = [x for g in groups for x in g]
             optnames = sorted(set(g[0] for g in groups))
